@@ -87,7 +87,7 @@ def check_probe(R, case, raw):
     return None
 
 
-def run_history(R, level, steps, ctx_engine, boots0, report_ctx=None):
+def run_history(R, level, steps, ctx_engine, boots0, report_ctx=None, two_step=False):
     env.CLOCK.freeze(1_700_000_000.0)
     ckw = {"engine_id": ctx_engine} if ctx_engine else {}
     w = World(level, DB, client_kwargs=ckw, agent_kwargs={"boots": boots0, "any_context": bool(ctx_engine)})
@@ -97,8 +97,13 @@ def run_history(R, level, steps, ctx_engine, boots0, report_ctx=None):
         # of the security parameters
         w.agent.report_context_engine = bytes.fromhex(report_ctx)
         R.mon["histories_with_reports_naming_another_context_engine"] += 1
+    if two_step:
+        # RFC 3414 section 4: the discovery report carries boots = time = 0, the real
+        # values come with the authenticated notInTimeWindow report of the second step
+        w.agent.two_step_discovery = True
+        R.mon["histories_with_two_step_discovery"] += 1
     w.seam.budget = 40 * len(steps) + 10
-    case = {"report_ctx": report_ctx, "level": level, "steps": [list(s) for s in steps], "ctx_engine": "hex:" + ctx_engine.hex(), "boots0": boots0}
+    case = {"two_step": two_step, "report_ctx": report_ctx, "level": level, "steps": [list(s) for s in steps], "ctx_engine": "hex:" + ctx_engine.hex(), "boots0": boots0}
     shape = tuple((s[0], s[1] if s[0] != "op" else s[1]) for s in steps)
     R.case(("c12", level, shape, bool(ctx_engine)), True, sample=case if R.evaluations % 151 == 0 else None)
     reboots = 0
@@ -116,6 +121,14 @@ def run_history(R, level, steps, ctx_engine, boots0, report_ctx=None):
                 w.agent.reboot()
                 reboots += 1
                 rebooted_since_op = True
+                continue
+            if st[0] == "drift":
+                # the agent's clock runs FAST: its engine time is ahead of what elapsed
+                # for the client (same boots); beyond 150 s the agent says notInTimeWindow
+                # once and the client has to follow the reported time from then on
+                w.agent.boot_epoch -= st[1]
+                reboots += 1  # counts as one more permitted re-synchronisation
+                R.mon["agent_clock_drifts"] += 1
                 continue
             nop += 1
             nreq0 = len(w.seam.requests)
@@ -158,7 +171,7 @@ def run_history(R, level, steps, ctx_engine, boots0, report_ctx=None):
         R.violation(case, "request budget exceeded", None)
         return
     niw = w.agent.counters.get("not_in_window", 0)
-    if level != "v3-noauth" and niw > reboots:
+    if level != "v3-noauth" and niw > reboots + (1 if two_step else 0):
         R.violation(case, "agent saw %d requests outside its time window, only %d reboots happened" % (niw, reboots), "engine-time-frozen" if not reboots else None)
         return
     bad = {k: v for k, v in w.agent.counters.items() if k in ("wrong_digest", "unknown_user", "decrypt_error", "unsupported_level") and v}
@@ -227,8 +240,10 @@ def gen_history(rng):
         r = rng.random()
         if r < 0.5:
             steps.append(("op", rng.choice(OPS)))
-        elif r < 0.88:
+        elif r < 0.84:
             steps.append(("advance", rng.choice(ADV)))
+        elif r < 0.9:
+            steps.append(("drift", rng.choice((10, 140, 160, 400, 86400))))
         else:
             steps.append(("reboot", 0))
     if steps[-1][0] != "op":
@@ -251,7 +266,7 @@ def run(R):
         steps = gen_history(rng)
         ctx = bytes([0x80]) + bytes(rng.getrandbits(8) for _ in range(8)) if rng.random() < 0.25 else b""
         report_ctx = rng.choice(("", "8000000105aabbccdd", "80001f8804" + b"elsewhere".hex())) if rng.random() < 0.2 else None
-        run_history(R, level, steps, ctx, rng.choice((0, 1, 7, 65535)), report_ctx=report_ctx)
+        run_history(R, level, steps, ctx, rng.choice((0, 1, 7, 65535)), report_ctx=report_ctx, two_step=rng.random() < 0.2)
     if R.shard == 0:
         for level in levels:
             for kind in ("wrong-msgid", "no-bindings", "msgid=0", "msgid=1", "msgid=-1", "msgid=2147483647", "msgid=2147483646", "msgid=-2147483648",
@@ -260,6 +275,9 @@ def run(R):
                 run_bad_discovery(R, level, kind)
             # the named histories of the design
             run_history(R, level, [("op", "get"), ("advance", 151), ("op", "get")], b"", 1)
+            run_history(R, level, [("op", "get"), ("advance", 1000), ("drift", 400), ("op", "get"), ("advance", 10), ("op", "set"), ("advance", 200), ("op", "get")], b"", 1)
+            run_history(R, level, [("op", "get"), ("drift", 160), ("op", "get"), ("advance", 3600), ("drift", 151), ("op", "walk"), ("op", "get")], b"", 3)
+            run_history(R, level, [("op", "get"), ("advance", 151), ("op", "set"), ("reboot", 0), ("op", "get"), ("advance", 400), ("op", "walk")], b"", 5, two_step=True)
             run_history(R, level, [("op", "get"), ("advance", 151), ("op", "set"), ("reboot", 0), ("op", "get")], b"", 1, report_ctx="")
             run_history(R, level, [("op", "get"), ("advance", 151), ("op", "set"), ("reboot", 0), ("op", "get")], b"", 1, report_ctx="8000000105aabbccdd")
             run_history(R, level, [("op", "get"), ("reboot", 0), ("op", "set"), ("op", "get")], b"", 1)
@@ -281,4 +299,4 @@ def replay(R, v):
     if "bad_discovery" in c:
         run_bad_discovery(R, c["level"], c["bad_discovery"])
         return
-    run_history(R, c["level"], [tuple(s) for s in c["steps"]], bytes.fromhex(c["ctx_engine"][4:]), c["boots0"], report_ctx=c.get("report_ctx"))
+    run_history(R, c["level"], [tuple(s) for s in c["steps"]], bytes.fromhex(c["ctx_engine"][4:]), c["boots0"], report_ctx=c.get("report_ctx"), two_step=c.get("two_step", False))
